@@ -54,6 +54,7 @@ func main() {
 	out := flag.String("out", "", "scratch output dir")
 	ovsrc := flag.String("overlaysrc", "/verif/overlay", "simulator sources mapped to <repo>/zzverif")
 	stmtYield := flag.Bool("stmt-yield", false, "insert a scheduler yield before every statement of package cache")
+	porcupine := flag.String("porcupine", "", "directory of the porcupine module in the module cache (mapped as a virtual package)")
 	flag.Parse()
 	if *out == "" {
 		fatal("need -out")
@@ -104,6 +105,16 @@ func main() {
 		}
 		return nil
 	})
+
+	if *porcupine != "" {
+		for _, f := range []string{"bitset.go", "checker.go", "model.go", "porcupine.go"} {
+			src := filepath.Join(*porcupine, f)
+			if _, err := os.Stat(src); err != nil {
+				fatal("porcupine source missing: " + src)
+			}
+			replace[filepath.Join(*repo, "zzverif", "porcupine", f)] = src
+		}
+	}
 
 	ov, _ := json.MarshalIndent(map[string]interface{}{"Replace": replace}, "", " ")
 	must(os.WriteFile(filepath.Join(*out, "overlay.json"), ov, 0o644))
